@@ -27,6 +27,31 @@ fn main() {
         }
         return;
     }
+    if args[0] == "--fuzz-roundtrip" {
+        // self-test of the fuzz plumbing: a recorded random case must be regenerated identically from its bytes
+        let mut bad = 0;
+        for (id, same, diff) in props::fuzz_roundtrip_all(40) {
+            println!("{} identical: {}/40", id, same);
+            if let Some((a, b)) = diff {
+                bad += 1;
+                println!("  A: {}\n  B: {}", &a[..a.len().min(400)], &b[..b.len().min(400)]);
+            }
+        }
+        std::process::exit(if bad == 0 { 0 } else { 2 });
+    }
+    if args[0] == "--fuzz-replay" {
+        // vcheck --fuzz-replay <ID> <bytes file>: what the fuzz target does with one input
+        let id = args.get(1).map(|s| s.to_uppercase()).unwrap_or_default();
+        let data = std::fs::read(args.get(2).expect("file")).expect("read");
+        match props::fuzz(&id, &data) {
+            Some((case, reason)) => {
+                println!("FAIL: {}\ncase: {}", reason, &case[..case.len().min(2000)]);
+                std::process::exit(1);
+            }
+            None => println!("ok ({} bytes)", data.len()),
+        }
+        return;
+    }
     if args[0] == "--emit-fuzz-seeds" {
         // vcheck --emit-fuzz-seeds <ID> <dir> [n]
         let id = args.get(1).map(|s| s.to_uppercase()).unwrap_or_default();
